@@ -209,7 +209,10 @@ fn shard_seed(seed: u64, prop: &str, leg: &str, shard: usize) -> [u8; 32] {
 /// *inconclusive* (exit 2), never a violation.
 const CASE_LIMIT_S: u64 = 300;
 static SLOT_COUNT: AtomicU64 = AtomicU64::new(0);
-static SLOTS: Mutex<Vec<Option<(Instant, String)>>> = Mutex::new(Vec::new());
+/// time is counted in half-second ticks of the watchdog thread itself, not by the wall clock: if the whole
+/// process (or machine) is stopped for a while, no tick passes and nothing is declared stuck
+static TICKS: AtomicU64 = AtomicU64::new(0);
+static SLOTS: Mutex<Vec<Option<(u64, String)>>> = Mutex::new(Vec::new());
 thread_local! {
   static MY_SLOT: usize = {
     let k = SLOT_COUNT.fetch_add(1, Ordering::SeqCst) as usize;
@@ -222,9 +225,10 @@ thread_local! {
 pub fn start_watchdog() {
   std::thread::spawn(|| loop {
     std::thread::sleep(std::time::Duration::from_millis(500));
+    let now = TICKS.fetch_add(1, Ordering::SeqCst) + 1;
     let stuck: Option<String> = {
       let s = SLOTS.lock().unwrap();
-      s.iter().flatten().find(|(t, _)| t.elapsed().as_secs() > CASE_LIMIT_S).map(|(_, j)| j.clone())
+      s.iter().flatten().find(|(t, _)| now.saturating_sub(*t) > 2 * CASE_LIMIT_S).map(|(_, j)| j.clone())
     };
     if let Some(json) = stuck {
       let prop = CURRENT_PROP.lock().map(|p| p.clone()).unwrap_or_default();
@@ -242,7 +246,7 @@ fn eval_case<P: Prop>(p: &P, case: &P::Case) -> (String, CheckResult) {
   let json = serde_json::to_string(case).expect("case serialises");
   CURRENT_CASE.with(|c| *c.borrow_mut() = json.clone());
   let slot = MY_SLOT.with(|s| *s);
-  SLOTS.lock().unwrap()[slot] = Some((Instant::now(), json.clone()));
+  SLOTS.lock().unwrap()[slot] = Some((TICKS.load(Ordering::SeqCst), json.clone()));
   struct Clear(usize);
   impl Drop for Clear {
     fn drop(&mut self) {
